@@ -182,7 +182,7 @@ func runC18(c *Ctx) {
 	r.Rule("nil-deref", "dereferences of pointers whose nil-ness depends on the lease file are proved non-nil", 4)
 	r.Rule("insert-guards", "a loaded lease enters the table only when allocated, inside the home subnet and with a client id; net2 only for captured MACs", 6)
 	r.Rule("reset", "New falls back to fresh tables unless the loaded state is complete and matches the configuration", 1)
-	r.Rule("persist", "acknowledged leases are saved under a non-empty key; only allocated leases are written; the file is replaced whole", 4)
+	r.Rule("persist", "acknowledged leases are saved under a non-empty key; only allocated leases are written; the file is replaced whole; a freed binding leaves the file", 6)
 
 	const rel = "handlers/dhcp4_spoofer"
 	pk := c.P.Pkg(rel)
@@ -458,6 +458,46 @@ func runC18(c *Ctx) {
 		}
 		r.Add(core.Obligation{Rule: "persist", Key: "persist handleRequest saves the acknowledged lease", Func: core.FuncName(fn), Pos: c.P.Pos(fn.Pos()), Status: st,
 			Basis: "every path from the ACK construction to a return passes saveConfig", Detail: det})
+	}
+	// a binding given up by its client (DECLINE, a select for another server) leaves the file too: in the message
+	// handlers every assignment of StateFree to a lease that may be an acknowledged one (not under a State == Discover
+	// test, not the commit re-check that refuses an offer) is followed by saveConfig on every path to a return. Otherwise
+	// a restart brings back a binding the client declined as in conflict. Expiry (freeLeases) is left out: a lease past
+	// its expiry is refused by the expiry tests and freed by the first tick after the restart.
+	for _, name := range []string{"handleDecline", "handleRequest", "handleRelease"} {
+		fn := c.P.Method(rel, "Handler", name)
+		if fn == nil {
+			continue
+		}
+		kgf := core.NewKeyGen()
+		core.EachInstr(fn, func(i ssa.Instruction) {
+			st, ok := i.(*ssa.Store)
+			if !ok {
+				return
+			}
+			fa, isFA := st.Addr.(*ssa.FieldAddr)
+			if !isFA || fieldOwner(fa) != "dhcp4_spoofer.Lease.State" {
+				return
+			}
+			if k, isC := st.Val.(*ssa.Const); !isC || k.Value == nil || k.Int64() != 0 {
+				return
+			}
+			gs := guardsOf(i)
+			if hasGuard(gs, `^\([^!].*\.State==1\)$`) {
+				return // an offer, never written to the file
+			}
+			okAll, exit := mustPass(i, func(j ssa.Instruction) bool {
+				cj, isCall := j.(ssa.CallInstruction)
+				return isCall && strings.HasSuffix(core.CalleeName(cj), ").saveConfig")
+			})
+			s2, det := core.Proved, ""
+			if !okAll {
+				s2 = core.Violated
+				det = name + " frees a lease that may be an acknowledged one and reaches the return at " + c.P.Pos(core.PosOf(exit)) + " without saveConfig: the lease file keeps the binding and a restart brings it back although the client gave it up"
+			}
+			r.Add(core.Obligation{Rule: "persist", Key: strings.TrimSuffix(kgf.Key("persist "+name+" saves after freeing a lease"), "#0"), Func: core.FuncName(fn), Pos: c.P.Pos(core.PosOf(i)), Status: s2,
+				Basis: "every path from State = StateFree to a return passes saveConfig", Detail: det})
+		})
 	}
 	// the key a binding is saved under is never empty: the loader refuses a lease without a client identifier, so a
 	// binding acknowledged under an empty option 61 (RFC 2132 wants at least two octets) would not come back
